@@ -692,6 +692,12 @@ func runConn(work, prop string) {
 		}
 		runOne(r, "random-trace")
 	}
+	if prop == "C03" {
+		connStreamCuts(e)
+	}
+	if prop == "C06" {
+		errorTextSweep(e)
+	}
 	e.Res.Rule = "corpus of scripted witness traces in all four client modes (directIO x pipelining), then seeded random walks over the enabled gated actions (start Go/Call/RoundTrip/CallWithContext/Ping, write returns ok/error, response/duplicate/unknown/undecodable frame arrives, header decode, body decode, read fails EOF/error, Close, context cancel) of 4..17 actions, each followed by a teardown that ends the connection; observables compared with the model after every action; non-trivial = distinct (mode, action-shape sequence)"
 	names := writeCases(work, "From Coq Require Import List. Import ListNotations. From RPC Require Import Hex RunConn. From RPC.Conn Require Import Model.", "ccase", cases, 40)
 	e.Res.ModelCases = len(cases)
